@@ -128,6 +128,25 @@ ADDENDA = {
  "C20": "assertion options on all metadata_endpoint variants.",
 }
 
+# rounds 4 and 5
+ADDENDA5 = {
+ "C01": "Communication errors caused by a cancelled or expired context; service instances logging at trace level.",
+ "C02": "Rules whose first route (same expression) has a path_params condition that never holds.",
+ "C03": "Every route case also through the Envoy service; request targets with an empty first segment.",
+ "C04": "The session credential in the query and in cookies (malformed neighbours, repeated names), same decision demanded.",
+ "C05": "The three scope matchers called directly over every list of up to 3 granted and 2 required scopes: composed of the answers for single pairs; two identity providers behind one cache.",
+ "C07": "Scenarios with a rule set that cannot be loaded followed by further changes, and with two readers asking for different hosts (regex host condition); the file_system provider while it starts; the cloud_blob scheduler with a held callback.",
+ "C08": "The Envoy service as third entry point (request target with a query in the path attribute, as Envoy sends it); settings changed by an update.",
+ "C09": "Trusted addresses in upper case, expanded and IPv4-mapped notation; a canary request before every judged one.",
+ "C10": "The jwt finalizer with a signing certificate that expires before its tokens; the RFC 7234 cells also in front of the metadata endpoint of a jwt authenticator with http_cache configured explicitly.",
+ "C11": "Other origins (port, scheme) under the same host name in the httpcache family; a recording cache that keeps references and reports later writes.",
+ "C14": "Malformed rules followed by a well-formed one; another source's rule set coming and going before the backtracking probe; settings reached by an update.",
+ "C16": "The signer behind the real, started file watcher with the key store rewritten in place (3 ways, a second watched file as the barrier); tokens as requests get them (finalizer plus shared cache) after every rotation.",
+ "C18": "The kubernetes system over every history of up to 4 (5) actions on one object without state merging; the file_system provider while it starts; http_endpoint endpoints with cacheable responses against a private-cache model; the real gocron scheduler.",
+ "C19": "String values and string lists of the grammar emptied, prefixed with '!', with a broken escape / unbalanced bracket / unfinished template; peers of a TLS port that never get as far as a request line against listener.New under a net/http server; the credentials file of the redis cache.",
+ "C20": "Values of several lines (block scalars in the file); mechanism type names in other notations; ${VAR} references; isolation of loaded configurations."
+}
+
 NOT_YET = {
 }
 
@@ -138,8 +157,8 @@ def main():
         pid = p['id']
         if pid in CHECKS:
             level, engine, technique, text, note, ref = CHECKS[pid]
-            if pid in ADDENDA:
-                text += " Added after the seeding rounds (DESIGN.md 6.4): " + ADDENDA[pid]
+            if pid in ADDENDA or pid in ADDENDA5:
+                text += " Added after the seeding rounds (DESIGN.md 6.4): " + " ".join(x for x in (ADDENDA.get(pid), ADDENDA5.get(pid)) if x)
             checks.append({
                 "property_id": pid,
                 "quick_cmd": f"bin/vcheck {pid} --tier quick",
